@@ -58,16 +58,23 @@ type site struct {
 type flags struct {
 	UnknownEnum bool // an enum declared with maxval:N holds a value above N that still fits its width
 	// Work the decoder did until it stopped (success or error), the basis of the allocation bound:
-	Visits   uint64 // descriptor nodes visited (each costs the real decoder a constant: tag parsing, maps, ...)
-	GoBytes  uint64 // bytes of Go memory the decoded data needs: vector contents, arrays, sizeof(element) per vector element
-	CapByLen uint64 // model of a known mistake: sum over non-byte vectors of length-in-BYTES x sizeof(element)
+	Visits      uint64 // descriptor nodes visited (each costs the real decoder a constant: tag parsing, maps, ...)
+	GoBytes     uint64 // bytes of Go memory the decoded data needs: vector contents, arrays, sizeof(element) per vector element
+	ScalarElems uint64 // vector elements that are plain integers / byte arrays (no tags to parse, no maps)
+	CapByLen    uint64 // model of a known mistake: sum over non-byte vectors of length-in-BYTES x sizeof(element)
 }
 
 // goSize over-estimates the size of the Go representation of one value of d (no reflection).
 func goSize(d *Desc) uint64 {
 	d = d.res()
 	switch d.K {
-	case KU8, KU16, KU24, KU32, KU64, KEnum:
+	case KU8:
+		return 1
+	case KU16:
+		return 2
+	case KU24, KU32:
+		return 4
+	case KU64, KEnum:
 		return 8
 	case KArray:
 		return uint64(d.N+7) &^ 7
@@ -335,8 +342,12 @@ func (st *decState) dec(d *Desc, base []byte, off int) (Val, int, error) {
 			st.fl.CapByLen += n * esz
 		}
 		var v Val
+		scalar := d.Elem.res().K != KStruct
 		for p := 0; p < len(body); {
 			st.fl.GoBytes += esz
+			if scalar {
+				st.fl.ScalarElems++
+			}
 			ev, np, err := st.dec(d.Elem, body, p)
 			if err != nil {
 				return Val{}, off, err
